@@ -2,6 +2,8 @@
 # run every claimed property's quick (or $1) check in turn; summary on stdout
 tier=${1:-quick}
 cd "$(dirname "$0")"
+export VERIF_RESULT_CACHE=$(mktemp -d /var/tmp/verif.rescache.XXXXXX)
+trap 'rm -rf "$VERIF_RESULT_CACHE"' EXIT
 for p in $(python3 -c "import json;print(' '.join(c['property_id'] for c in json.load(open('MANIFEST.json'))['checks']))"); do
   s=$(date +%s)
   out=$(./check $p --tier $tier 2>&1 | grep -v "^WARNING")
